@@ -27,6 +27,8 @@ def main():
     props = a[1].split(",")
     tier = a[a.index("--tier") + 1] if "--tier" in a else "quick"
     keep = a[a.index("--keep") + 1] if "--keep" in a else None
+    summary = a[a.index("--summary") + 1] if "--summary" in a else ""
+    needs = a[a.index("--needs") + 1] if "--needs" in a else "see notes.md"
     tmp = tempfile.mkdtemp(prefix="nqseed-")
     res = {"seed": seed, "props": props, "tier": tier}
     try:
@@ -67,7 +69,8 @@ def main():
             meta = {
                 "property": props[0],
                 "confirmed": res["confirmed"],
-                "needs_to_manifest": "see notes.md",
+                "summary": summary,
+                "needs": needs,
                 "ran": {
                     "demo_clean": res["demo_clean"],
                     "tests_with_patch": res["tests_patched"],
